@@ -9,7 +9,10 @@
 (* refusal is an error of the native call ("err": nothing is written).      *)
 (* State per identity x (ids[x]), = the contract's storage under encId:     *)
 (*   st     "none" | "valid" | "revoked"           (the flag byte)          *)
-(*   keys   FIELD_PK: sequence of [key, revoked, auth]; index = position    *)
+(*   keys   FIELD_PK: sequence of [key, revoked, auth, pklist]; index =      *)
+(*          position.  pklist (isPkList) is FALSE only for a key added as a  *)
+(*          pure authentication key (addNewAuthKey); it plays no role in any *)
+(*          authorization rule                                               *)
 (*   ctrl   FIELD_CONTROLLER: none | one ONT ID | group (members, t)        *)
 (*   rec    FIELD_RECOVERY: none | old (an address) | group (members, t)    *)
 (*   attrs  FIELD_ATTR: set of attribute keys                               *)
@@ -66,7 +69,7 @@ MembersOK(g) == \A m \in Range(g.members) : m \in Ids /\ Valid(m) /\ Len(KL(m)) 
 
 HasKey(x, k) == \E i \in 1..Len(KL(x)) : KL(x)[i].key = k
 KeyPos(x, k) == CHOOSE i \in 1..Len(KL(x)) : KL(x)[i].key = k
-Appended(x, k, au) == [ids[x] EXCEPT !.keys = Append(@, [key |-> k, revoked |-> FALSE, auth |-> au])]
+Appended(x, k, au) == [ids[x] EXCEPT !.keys = Append(@, [key |-> k, revoked |-> FALSE, auth |-> au, pklist |-> ~au])]
 RevokedAt(x, i) == [ids[x] EXCEPT !.keys[i].revoked = TRUE]
 AuthAt(x, i, b) == [ids[x] EXCEPT !.keys[i].auth = b]
 Live(x, i) == HasIdx(x, i) /\ ~KL(x)[i].revoked
@@ -80,7 +83,7 @@ A(name, x, S) == [name |-> name, id |-> x, signers |-> S]
 
 \* ------------------------------------------------------------------ registration
 RegPk(x, k, S) == Do(A("RegPk", x, S) @@ [key |-> k], x, ids[x].st = "none" /\ k \in S,
-                     [NoneRec EXCEPT !.st = "valid", !.keys = <<[key |-> k, revoked |-> FALSE, auth |-> TRUE]>>])
+                     [NoneRec EXCEPT !.st = "valid", !.keys = <<[key |-> k, revoked |-> FALSE, auth |-> TRUE, pklist |-> TRUE]>>])
 RegCtrl(x, c, proof, S) == Do(A("RegCtrl", x, S) @@ [ctrl |-> c, proof |-> proof], x,
                               ids[x].st = "none" /\ ProofOK(c, proof, S),
                               [NoneRec EXCEPT !.st = "valid", !.ctrl = c])
